@@ -96,8 +96,9 @@ func (b *Batch) Put(key []byte, value []byte) error {
 		// 如果缓存命中则直接修改缓存
 		// 之前可能被标记为删除, 需恢复为正常记录
 		logRecord.Type = datafile.LogRecordNormal
-		logRecord.Key = key
-		logRecord.Value = value
+		// 必须拷贝 value, 不能持有调用方的切片: 调用方可能复用该缓冲区,
+		// 且记录归还缓冲池后其 Value 空间会被后续写入覆盖
+		logRecord.Value = append(logRecord.Value[:0], value...)
 		b.cachedDataSize += newSize - oldSize
 	}
 	return nil
